@@ -36,9 +36,9 @@ ASSUMPTIONS = ['order of lifecycle callbacks inside one operation not judged',
 PRIOS = [-3, -1, 0, 0, 1, 1, 2, 3]
 
 
-def gen_one(rng, tier):
+def gen_one(rng, tier, scale=False):
     big = tier == 'thorough' and rng.random() < 0.5
-    ncls = rng.randint(3, 6)
+    ncls = rng.randint(3, 6) if not scale else 40
     classes = []
     for i in range(ncls):
         base = rng.randrange(i) if i and rng.random() < 0.5 else None
@@ -46,9 +46,11 @@ def gen_one(rng, tier):
                         'prio': rng.choice([None, None, -1, 0, 1, 2]),
                         'shape': rng.choice(['', '', 'a', 'r', 'ar'])})
     prios = PRIOS if rng.random() < 0.6 else [-1, 0, 1]
+    if scale:
+        prios = list(range(-6, 7)) + [0, 0, 100, -100, 2 ** 40]
     ops = []
     enabled = True
-    for _ in range(rng.randint(2, 40 if big else 20)):
+    for _ in range(rng.randint(2, 40 if big else 20) if not scale else 220):
         k = rng.random()
         if k < 0.45:
             prio = rng.choice(prios) if rng.random() < 0.6 else None
@@ -70,6 +72,9 @@ def gen_one(rng, tier):
 
 
 def gen_cases(tier, seed):
+    for i in range(2 if tier == 'quick' else 32):
+        yield gen_one(random.Random(f'C07/scale/{seed}/{tier}/{i}'), tier,
+                      scale=True)
     n = 3000 if tier == 'quick' else 16 * 10000
     for i in range(n):
         yield gen_one(random.Random(f'C07/{seed}/{tier}/{i}'), tier)
